@@ -214,6 +214,7 @@ def judge_call(entry, dgrams, res, opts, exc, now, acc, case, fresh=None):
         bad("format", "boot call %r: %s" % (name, err))
         return
     orig = open(image(size), "rb").read()
+    acc.outcome("blocks=%d options=%s" % (n, ",".join(sorted(opts)) or "-"))
     cfg, vals = ref_config(opts, now)
     want = bytearray(orig)
     want[384:512] = cfg
@@ -306,6 +307,8 @@ def part_hist(params, tier, acc):
                 acc.nontrivial += 1
             run_history(hist, acc, None)
             states.add(hidden_state())
+            if depth == 3 and sum(rest) % 11 == 0:
+                acc.sample(dict(history=[alphabet()[a][0] for a in hist]))
     acc.states += len(states)
     acc.traces += acc.transitions
     acc.sample(dict(part="hist", first=alphabet()[first][0],
